@@ -5,6 +5,8 @@ import math
 import os
 import random
 import struct
+import tempfile
+from datetime import datetime, timezone
 
 from common import *  # noqa
 import csvtie
@@ -372,6 +374,53 @@ def main(tier, seed):
     # verdicts
     for name, tail in failed:
         ck.violation({"kind": "model-evaluation-failed", "what_no_longer_checks": name, "log": tail}, no_input=True)
+    # strings that are instances of a str SUBCLASS whose str() / format() is not their text (a member of `class Unit(str, Enum)`, a subclass with
+    # its own __str__): valid measurements, keys and tag values like any other string - the file holds their text, and they read back as it
+    from enum import Enum as _Enum
+
+    class _Unit(str, _Enum):
+        ON = "on"
+        DEG = "deg C"
+
+    class _Loud(str):
+        def __str__(self):
+            return self.upper() + "!"
+
+        def __format__(self, spec):
+            return "<" + str.__str__(self) + ">"
+    text = lambda x: str.__str__(x)
+    sub_checked = 0
+    for compact in (False, True):
+        for kw in ({}, {"delimiter": ";"}):
+            d = tempfile.mkdtemp(dir=str(ck.work))
+            path = os.path.join(d, "db.csv")
+            pts = [tf.Point(time=datetime(2020, 1, 1, 0, 0, k, tzinfo=timezone.utc), measurement=m, tags={tk: tv, "plain": "x"}, fields={fk: 1.5})
+                   for k, (m, tk, tv, fk) in enumerate([(_Unit.ON, _Unit.DEG, _Unit.ON, _Unit.DEG), (_Loud("m"), _Loud("key"), _Loud("val"), _Loud("f")), ("m", "k", _Unit.DEG, "f")])]
+            want = [(text(p.measurement), {text(a): (None if b is None else text(b)) for a, b in p.tags.items()}, {text(a): b for a, b in p.fields.items()}) for p in pts]
+            db = tf.TinyFlux(path, **kw)
+            try:
+                db.insert_multiple(pts, compact_key_prefixes=compact)
+                db.close()
+                db = tf.TinyFlux(path, **kw)
+                got = [(p.measurement, dict(p.tags), dict(p.fields)) for p in db.all()]
+                n_upd = db.update(tf.TagQuery().plain == "x", tags={"more": _Unit.ON})
+                db.close()
+                db = tf.TinyFlux(path, **kw)
+                got2 = [(p.measurement, {a: b for a, b in p.tags.items() if a != "more"}, dict(p.fields), p.tags.get("more")) for p in db.all()]
+            except Exception as e:  # noqa
+                got, got2, n_upd = f"raised {type(e).__name__}: {e}"[:200], None, None
+            finally:
+                try:
+                    db.close()
+                except Exception:  # noqa
+                    pass
+            sub_checked += 1
+            if (got != want or got2 != [w + ("on",) for w in want]) and len(direct_bad) < 4:
+                direct_bad.append({"kind": "failing-input", "why": "strings that are instances of a str subclass whose str() is not their text (a str-mixin enum member, a subclass with its own "
+                                   "__str__ / __format__) do not survive the CSV round trip as their text", "compact_key_prefixes": compact, "csv_kwargs": kw,
+                                   "text_of_the_points (measurement, tags, fields)": want, "read_back": got, "read_back_after_an_update": got2,
+                                   "file": open(path, newline="").read()[:600] if os.path.exists(path) else None})
+    stats["str_subclass_round_trips"] = sub_checked
     if direct_bad:
         ck.violation(dict(direct_bad[0], more=direct_bad[1:]))
     elif mism:
